@@ -169,7 +169,14 @@ def step (s : St) (line : String) : St :=
       let argsAgree := r.args.all fun j => rest.getD j "?" == BV4.toString (s.absXv.getD j [])
       if c != rt ∧ argsAgree then
         let a := argsOf s s.absXv r
-        s := s.propfail s!"val={k} op={opBase r.op} class=construction-time-vs-run-time/{shapeClass r.op a r.params} full={r.op} params={r.params} construction={c.take 200} runtime={rt}"
+        -- how the two evaluations relate: the construction-time evaluation threw, or is a refinement of / refined by / in
+        -- contradiction with the run-time value
+        let rtv := s.absXv.getD k []
+        let ctv := BV4.ofString c
+        let rel := if c.startsWith "e(" ∨ c == "e" then "ct-throws"
+                   else if BV4.leB rtv ctv then "ct-more-defined" else if BV4.leB ctv rtv then "ct-less-defined"
+                   else if BV4.compatB ctv rtv then "ct-differently-defined" else "ct-contradicts-rt"
+        s := s.propfail s!"val={k} op={opBase r.op} class=construction-time-vs-run-time/{shapeClass r.op a r.params}/{rel} full={r.op} params={r.params} construction={c.take 200} runtime={rt}"
     return s
   | "lit" :: rest => { s with litStr := " ".intercalate rest, ops := s.ops + 1, opHist := bump s.opHist "literal" }
   | ["->", r] => Id.run do
